@@ -23,6 +23,7 @@ RULE = ("exhaustive: every value over the 11-symbol alphabet {a , ; : = ' ^ SP \
         "text tokenised by the harness's RFC 5545 parameter grammar gives the same map, which implies every value "
         "containing , ; : is inside DQUOTEs. Non-trivial: a value needs quotes or contains = ' ^ \\ % or is empty or a list; "
         "distinct by construction / hash.")
+RULE += ' Rounds 7-8: component path with 14 typed RFC properties, a second property of the same value type and the same property in a later component (no foreign parameters); a strict or lenient line constructed between construction and parsing; typed parameter strings.'
 ASSUMPTIONS = ["values contain no DQUOTE and no control characters (premise of the statement)",
                "a one-element list and a scalar are the same text ([v] == v is a normalisation)"]
 REQUIRED_CLASSES = ["path:params", "path:line", "path:component", "needs-quotes", "list-value", "empty-value", "has-backslash"]
